@@ -55,7 +55,7 @@ fn main() {
             let threads: usize = arg(&args, "--threads").and_then(|s| s.parse().ok()).unwrap_or(16);
             let cap: f64 = arg(&args, "--cap").and_then(|s| s.parse().ok()).unwrap_or(0.0);
             let out = arg(&args, "--out");
-            exec::watchdog(20);
+            exec::watchdog(if cfg!(miri) { 600 } else { 20 });
             let json = check(&prop, &tier, threads, cap);
             match out {
                 Some(p) => std::fs::write(p, json).unwrap(),
@@ -154,9 +154,18 @@ fn determinism_probe(cfgs: &[exec::Cfg]) -> Result<u64, String> {
 
 fn check(prop: &str, tier: &str, threads: usize, cap: f64) -> String {
     let t0 = Instant::now();
-    let cfgs = props::scenarios(prop, tier);
+    let mut cfgs = props::scenarios(prop, tier);
+    if let Ok(sh) = std::env::var("SX_SHARD") {
+        // "i/n": keep every n-th scenario (the Miri slice is spread over several processes)
+        let (i, n) = sh.split_once('/').expect("SX_SHARD=i/n");
+        let (i, n): (usize, usize) = (i.parse().unwrap(), n.parse().unwrap());
+        cfgs = cfgs.into_iter().enumerate().filter(|(k, _)| k % n == i).map(|(_, c)| c).collect();
+        if cfgs.is_empty() {
+            return format!("{{\"engine\":\"sx\",\"property\":{},\"tier\":{},\"executions\":0,\"states\":0,\"found\":[],\"samples\":[],\"scenario_names\":[]}}", jstr(prop), jstr(tier));
+        }
+    }
     assert!(!cfgs.is_empty(), "no scenarios for {}", prop);
-    let det = determinism_probe(&cfgs);
+    let det = if cfg!(miri) { Ok(0) } else { determinism_probe(&cfgs) };
     let mut o = String::new();
     let _ = write!(o, "{{\"engine\":\"sx\",\"property\":{},\"tier\":{},", jstr(prop), jstr(tier));
     if let Err(e) = det {
